@@ -604,8 +604,14 @@ def small_domain_summary(M,f,arg):
 class PathEnd(Exception): pass
 def run(M,st0,limit=10**10,on_call=None):
     """explore all paths from st0; returns list of finished states (result or panic)"""
+    return list(run_iter(M,st0,limit,on_call))
+def run_iter(M,st0,limit=10**10,on_call=None):
+    """depth-first exploration as a generator: finished states are handed out as soon as their path is complete, so a harness can
+    examine (and stop on) the first counterexample without waiting for the whole exploration"""
     done=[]; work=[st0]
     while work:
+        while done:
+            M.stats['paths']+=1; yield done.pop(0)
         st=work.pop()
         try:
             while True:
@@ -757,8 +763,8 @@ def run(M,st0,limit=10**10,on_call=None):
             st.result=('PANIC',p.msg,st.frames[-1].fn.name if st.frames else '?'); done.append(st)
         except PathEnd:
             pass
-    M.stats['paths']+=len(done)
-    return done
+    while done:
+        M.stats['paths']+=1; yield done.pop(0)
 def last_top_paren(call):
     # the argument list is the final (...) group
     assert call.endswith(')'), call
@@ -964,6 +970,7 @@ class Forks:
 class Redirect:
     def __init__(s,f,args,post=None): s.f=f; s.args=args; s.post=post
 Machine.run=run
+Machine.run_iter=run_iter
 
 # ------------------------------------------------------------------ std models
 def some(v): return Enum('Option','Some',[v])
@@ -1731,7 +1738,10 @@ def call_model(M,st,fr,callee,args):
             m_,scale=val(digs[:7])
             lo=z3.fpDiv(RNE,z3.fpUnsignedToFP(RNE,m_,F32),z3.FPVal(float(scale),F32))
             hi=z3.fpDiv(RNE,z3.fpUnsignedToFP(RNE,m_+1,F32),z3.FPVal(float(scale),F32))
-            v=z3.FP(f'f32parse{M.fresh()}',F32); okv=ok(Flt(v)); extra=[z3.fpLEQ(lo,v),z3.fpLEQ(v,hi)]
+            v=z3.FP(f'f32parse{M.fresh()}',F32); okv=ok(Flt(v))
+            # ... and exactly the truncation's value when every further digit is '0' (e.g. "1.0000000")
+            rest0=z3.And(*[by.z()==48 for by in digs[7:]])
+            extra=[z3.fpLEQ(lo,v),z3.fpLEQ(v,hi),z3.Implies(rest0,v==lo)]
         # any other text: f32::from_str never panics; its result is left unconstrained (Ok(any) or Err)
         anyv=z3.FP(f'f32any{M.fresh()}',F32)
         alts=[(z3.And(simple,*extra) if extra else simple,okv),(z3.Not(simple),err(Unit())),(z3.Not(simple),ok(Flt(anyv)))]
